@@ -369,6 +369,8 @@ after72:
 	res.Explanation = "SSA of proxy.NewClusterConnection (which direction flag each server's LCMParameters closure call gets, what that flag selects inside the closure, and which cluster the server's forwarding client was created for), of adminServiceProxyServer.DescribeCluster (the override store, its mode guard, and that every non-error/non-bypass return passes it), of handleStream's LCM case (origin of each of the four metadata values, argument order of mapShardIDUnique, dominance over the forwarder construction) and of mapShardIDUnique / common.LCM / common.GCD (shape). Decides the wiring and shape of the LCM presentation; the arithmetic properties of the mapping for all count pairs (uniqueness, range, hash consistency, int32 overflow of a*b) are values, not shapes, and are not decided."
 	res.Assumptions = []string{"servercommon.MapShardID implements Temporal's shard mapping", "history metadata keys name client = initiator, server = serving side"}
 	checkShardIDRejections(c, res, "O7.6")
+	res.RuleDoc["O7.7"] = "no swallowed error in the files the mechanism lives in: no function returns a nil error on a path on which an error obtained from a call is known to be non-nil (io.EOF from a stream Recv, the normal end of a receive loop, is the one accepted idiom)"
+	checkNoSwallowedErrors(c, res, "O7.7", []string{"proxy/admin_stream_transfer.go", "proxy/adminservice.go", "proxy/cluster_connection.go"})
 	return res, nil
 }
 
